@@ -256,7 +256,9 @@ PROPS = {
                    "anything changed; the published book is replaced only by the result of a completely applied accepted batch (a rejected "
                    "batch is never published); ValidatorAddrsWatch::announce publishes the old book with exactly one entry changed: the node's own "
                    "announcement, validly signed by its key and strictly newer than the entry it replaces. Thorough tier: Kani (loop-free, complete) proves NetAddress::is_newer on the real crate is the "
-                   "strict lexicographic order on (version, timestamp) over all 64-bit versions -- hence arrival-order independence.",
+                   "strict lexicographic order on (version, timestamp) over all 64-bit versions; lemma_arrival_order: with that order total, "
+                   "two announcements with different (version, timestamp) commute under the keep-the-newer rule that update() applies per key -- "
+                   "arrival-order independence.",
         level_note="Trusted: signature check predicate, im::HashMap/HashSet as finite map/set, the Watch mutex serialises writers (A4). "
                    "is_newer's contract is assumed in the Verus unit and discharged by the Kani harness. announce() assumes the node's own version counter is below 2^64-1 (A7-like; it starts at 0 "
                    "and only this function increments it).",
